@@ -374,3 +374,12 @@ def pv_anyl_cons(a: 'Term', s: 'seq[Term]'):
     assert ([a] + s)[0] == a
     assert ([a] + s)[1:] == s
     ensures(pv_anyl([a] + s) == (pv(a) or pv_anyl(s)))
+
+
+@lemma
+def pv_any_tail(ts: 'seq[Term]'):
+    """the clause without its first literal, index style"""
+    requires(len(ts) >= 1)
+    pv_anyl_any(ts, 1)
+    pv_anyl0(ts[1:])
+    ensures(pv_any(ts[1:], 0) == pv_any(ts, 1))
